@@ -584,6 +584,8 @@ package dmap
 //@   requires #routing [C07]: dm != nil && dm.s != nil && dm.s.rt != nil && e != nil && dm.s.parts() && dm.s.primary.count > 0
 //@   atcall locker\.Locker\)\.Lock$ requires #read_modify_write_runs_on_the_partition_owner [C07]: dm.ownsKeyOf(e)
 //@   atcall dmap\.DMap\)\.(Get|put)$ requires #inside_the_keys_critical_section [C07]: dm.s.locker.held[atomicKey]
+//@   ensures #returns_the_value_it_read [C07] internal: result.1 == nil ==> result.0 == entry
+//@   ensures #lock_name_is_the_key [C07] internal: atomicKey == e.dmap + e.key
 
 //@ func (dm *DMap) atomicIncrByFloat(e *env, delta float64) (float64, error)
 //@   props C07
@@ -598,6 +600,9 @@ package dmap
 //@   requires #routing [C07]: dm != nil && dm.s != nil && dm.s.rt != nil && dm.s.parts() && dm.s.primary.count > 0
 //@   atcall locker\.Locker\)\.Lock$ requires #read_modify_write_runs_on_the_partition_owner [C07]: dm.ownsKeyOf(e)
 //@   atcall dmap\.DMap\)\.(loadCurrentAtomicInt|put)$ requires #inside_the_keys_critical_section [C07]: dm.s.locker.held[atomicKey]
+//@   ensures #new_value [C07] internal: result.1 == nil && -4611686018427387904 < current && current < 4611686018427387904 && -4611686018427387904 < delta && delta < 4611686018427387904 ==>
+//@                updated == ite(cmd == protocol.DMap.Incr, current + delta, current - delta) && result.0 == updated
+//@   ensures #lock_name_is_the_key [C07] internal: atomicKey == e.dmap + e.key
 //@   flag clock
 //@   flag wired 3
 //@   flag skip nil
